@@ -1,14 +1,17 @@
 /-
   C08 — left-recursive rules parse as the left-associative iteration they denote.
 
-  The equality "seed growing = iteration" is NOT proved. Kernel-checked here: the structural facts of
-  the seed-growing loop (`parseRuleRecursiveLeader`) on the full runtime model, and — at the end of the file — the
-  TERMINATION clause: with `-support-left-recursion`, a grammar in which every same-position cycle passes through a
+  Kernel-checked here: the structural facts of the seed-growing loop (`parseRuleRecursiveLeader`) on the full runtime
+  model; "seed growing = the iteration" for DIRECTLY left-recursive rules whose operands reach no leader rule and whose
+  code is pure (`C08_direct_left_recursion_is_iteration_partial`, `Proofs/LFree.lean`, `Proofs/LRIter.lean`; operands that
+  recurse back into a leader, e.g. `"(" Expr ")"`, are NOT covered by the theorem — the iterative-twin streams are what
+  checks them); and the TERMINATION clause: with `-support-left-recursion`, a grammar in which every same-position cycle passes through a
   leader rule terminates on every input, without a budget (`C08_left_recursive_parse_terminates`,
   `Proofs/AdvanceLR.lean`, `Proofs/Conv.lean`, `Proofs/LRTerm.lean`).
 -/
 import PigeonVerif.Proofs.TermProof
 import PigeonVerif.Proofs.LRTerm
+import PigeonVerif.Proofs.LRIter
 
 namespace PV
 namespace RT
@@ -135,6 +138,161 @@ def rulesBad : List Rule := rules.map (fun r => if r.name = "E" then { r with le
 theorem not_wellformed : checkLRWF { env "" with rules := rulesBad } [] [("T", 1)] = false := by decide
 
 end ExampleC08
+
+/-! ### seed growing = the iteration (directly left-recursive rules, leader-free pure operands) -/
+
+/-- **C08 (the main clause), partial.** `A <- A t1 / … / A tn / b1 / … / bm` generated with `-support-left-recursion`
+    (Memoize off, no budget). Hypotheses (`DirectLR`): `A` is a leader of exactly that shape; no rule that runs the
+    seed-growing loop can be reached from the operands `ti`, `bj` (`LFSet`, `callsInL`); every `ti` is non-nullable; node
+    identifiers are unique, there is no throw/recover and the code blocks are pure functions of `c.text` / `c.pos`
+    (`Expr.Ok`, `PureCode`). Then for every input, depth and state in which the table holds no entry for `A` at the
+    current position: if the leader returns, it returns what the ITERATION returns (`Iter`, `Proofs/LRIter.lean`) —
+    the first base alternative that the ORDINARY parser matches at the start position (`AltAt`), extended greedily by
+    the first tail that the ordinary parser matches at the end of the match so far (`TailsAt`, `Reps`), the value being
+    the left-nested `[[[b, t…], t…], t…]`; and it fails iff no base alternative matches. "What the ordinary parser
+    matches" (`Loc`) is the result of the parser generated WITHOUT left-recursion support on that operand at that
+    position, from every state, so nothing of the seed-growing machinery is left in the statement.
+    NOT covered: operands that recurse into a leader (`"(" Expr ")"`), indirect left recursion, labels/actions around the
+    recursive alternatives, Memoize — the check's iterative-twin streams compare those by execution. -/
+theorem C08_direct_left_recursion_is_iteration_partial {E : Env} {A : Rule} {cid line col : Nat}
+    {ra : List (Nat × Nat × List Expr)} {bases : List Expr} {S rn : String → Bool} {own : Nat → Option String}
+    {node : Nat → Option Expr} {isPred : Nat → Bool} (H : DirectLR E A cid line col ra bases S rn own node isPred)
+    (f k : Nat) (s s' : PState) (v : Val) (ok : Bool) (hi : FInv E s) (hnone : getMemoized s (.rule A.name) = none)
+    (hrun : parseRuleLeader E (parseExpr E f) k A s = .done v ok s') :
+    Iter E A (ra.map (·.2.2)) bases s.pt ok v s'.pt := by
+  have h := leader_iter H f k s hi hnone
+  rw [hrun] at h
+  exact h
+
+/-- what the ordinary parser does with an operand at a position is a function of the operand and the position -/
+theorem C08_operand_result_is_determined (E : Env) (A : Rule) (x : Expr) (p q q' : Savepoint) (ok ok' : Bool) (v v' : Val)
+    (h1 : Loc E A x p ok v q) (h2 : Loc E A x p ok' v' q') : ok = ok' ∧ v = v' ∧ q = q' := h1.det h2
+
+/-- leader-free expressions are evaluated by the left-recursion parser exactly as by the ordinary parser (same
+    outcome, same state, at every depth): the memo table plays no part -/
+theorem C08_leader_free_is_ordinary (E : Env) (hc : LRCfg E) (S : String → Bool) (hS : LFSet E S) (f : Nat) (e : Expr)
+    (he : e.callsIn S = true) (s : PState) : parseExpr (noLR E) f e s = parseExpr E f e s :=
+  parseExpr_noLR hc hS f e he s
+
+namespace ExampleIter
+
+def lit (id : Nat) (s : String) : Expr := .lit id (s.toList.map (·.toNat)) false ("\"" ++ s ++ "\"")
+
+/-- `S <- E !.` ; `E <- E "+" N / E "-" N / N` (leader) ; `N <- "1" / "2"` -/
+def e2 : Expr := .ruleRef 2 "E"
+def e4 : Expr := .any 4
+def e3 : Expr := .not 3 e4
+def e1 : Expr := .seq 1 [e2, e3]
+def e7 : Expr := .ruleRef 7 "E"
+def e8 : Expr := lit 8 "+"
+def e9 : Expr := .ruleRef 9 "N"
+def e6 : Expr := .seq 6 [e7, e8, e9]
+def e11 : Expr := .ruleRef 11 "E"
+def e12 : Expr := lit 12 "-"
+def e13 : Expr := .ruleRef 13 "N"
+def e10 : Expr := .seq 10 [e11, e12, e13]
+def e14 : Expr := .ruleRef 14 "N"
+def e5 : Expr := .choice 5 2 6 [e6, e10, e14]
+def e16 : Expr := lit 16 "1"
+def e17 : Expr := lit 17 "2"
+def e15 : Expr := .choice 15 3 6 [e16, e17]
+
+def ruleE : Rule := { name := "E", displayName := "", leader := true, leftRecursive := true, expr := e5 }
+
+def rules : List Rule :=
+  [ { name := "S", displayName := "", leader := false, leftRecursive := false, expr := e1 },
+    ruleE,
+    { name := "N", displayName := "", leader := false, leftRecursive := false, expr := e15 } ]
+
+def own (id : Nat) : Option String :=
+  if id = 0 then none else if id ≤ 4 then some "S" else if id ≤ 14 then some "E" else if id ≤ 17 then some "N" else none
+def node : Nat → Option Expr
+  | 1 => some e1 | 2 => some e2 | 3 => some e3 | 4 => some e4 | 5 => some e5 | 6 => some e6 | 7 => some e7
+  | 8 => some e8 | 9 => some e9 | 10 => some e10 | 11 => some e11 | 12 => some e12 | 13 => some e13 | 14 => some e14
+  | 15 => some e15 | 16 => some e16 | 17 => some e17
+  | _ => none
+
+def env (inp : String) : Env :=
+  { flags := { optimize := false, globalState := false, leftRec := true, basicLatin := false },
+    opts := {}, rules := rules,
+    code := { args := fun _ => [], run := fun _ ctx => { state := ctx.state, global := ctx.global } },
+    toLower := id, input := inp.toList.map (·.toNat) }
+
+def ra : List (Nat × Nat × List Expr) := [(6, 7, [e8, e9]), (10, 11, [e12, e13])]
+
+theorem find_cases (inp : String) (n : String) (r : Rule) (h : (env inp).findRule n = some r) :
+    (n = "N" ∧ r = { name := "N", displayName := "", leader := false, leftRecursive := false, expr := e15 }) ∨
+    (n = "E" ∧ r = ruleE) ∨
+    (n = "S" ∧ r = { name := "S", displayName := "", leader := false, leftRecursive := false, expr := e1 }) := by
+  simp only [Env.findRule, env, rules, List.reverse_cons, List.reverse_nil, List.nil_append, List.cons_append,
+    List.find?] at h
+  by_cases hN : "N" = n
+  · subst hN; simp at h; exact Or.inl ⟨rfl, h.symm⟩
+  · by_cases hE : "E" = n
+    · subst hE; simp [ruleE] at h; exact Or.inr (Or.inl ⟨rfl, by rw [← h]; rfl⟩)
+    · by_cases hS : "S" = n
+      · subst hS; simp [ruleE] at h; exact Or.inr (Or.inr ⟨rfl, h.symm⟩)
+      · simp [hN, hE, hS, ruleE] at h
+
+/-- the hypotheses of the theorem hold of this grammar, for every input -/
+theorem direct (inp : String) :
+    DirectLR (env inp) ruleE 5 2 6 ra [e14] (fun n => n == "N") (fun _ => false) own node (fun _ => false) where
+  cfg := ⟨rfl, rfl, rfl⟩
+  noopt := rfl
+  pure := { noargs := fun _ => rfl, act := fun _ _ _ _ _ => ⟨rfl, rfl, rfl, rfl⟩, pred := fun _ h => by cases h }
+  okG := by
+    intro n r h
+    rcases find_cases inp n r h with ⟨rfl, rfl⟩ | ⟨rfl, rfl⟩ | ⟨rfl, rfl⟩
+    · simp [e15, e16, e17, lit, Expr.Ok, OkL, Keyed, own, node, Expr.id]
+    · simp [ruleE, e5, e6, e7, e8, e9, e10, e11, e12, e13, e14, lit, Expr.Ok, OkL, Keyed, own, node, Expr.id]
+    · simp [e1, e2, e3, e4, Expr.Ok, OkL, Keyed, own, node, Expr.id]
+  find := by simp [Env.findRule, env, rules, ruleE]
+  ld := rfl
+  shape := rfl
+  lf := by
+    constructor
+    · intro n r hS h
+      rcases find_cases inp n r h with ⟨rfl, rfl⟩ | ⟨rfl, rfl⟩ | ⟨rfl, rfl⟩
+      · simp [e15, e16, e17, lit, Expr.callsIn, callsInL]
+      · simp at hS
+      · simp at hS
+    · intro n r hS h
+      rcases find_cases inp n r h with ⟨rfl, rfl⟩ | ⟨rfl, rfl⟩ | ⟨rfl, rfl⟩
+      · rfl
+      · simp at hS
+      · simp at hS
+  tails_lf := by
+    intro a ha
+    simp only [ra, List.mem_cons, List.not_mem_nil, or_false] at ha
+    rcases ha with rfl | rfl <;> simp [e8, e9, e12, e13, lit, Expr.callsIn, callsInL]
+  bases_lf := by simp [e14, Expr.callsIn, callsInL]
+  rnc := by
+    intro n r h hn
+    rcases find_cases inp n r h with ⟨rfl, rfl⟩ | ⟨rfl, rfl⟩ | ⟨rfl, rfl⟩
+    · simp [e15, e16, e17, lit, Expr.nul, nulAny] at hn
+    · simp [ruleE, e5, e6, e7, e8, e9, e10, e11, e12, e13, e14, lit, Expr.nul, nulAny, nulAll] at hn
+    · simp [e1, e2, e3, e4, Expr.nul, nulAll] at hn
+  tails_nn := by
+    intro a ha
+    simp only [ra, List.mem_cons, List.not_mem_nil, or_false] at ha
+    rcases ha with rfl | rfl <;> simp [e8, e9, e12, e13, lit, Expr.nul, nulAll]
+
+/-- so, on every input: whatever the leader `E` returns at the start of the input is what the iteration returns -/
+example (inp : String) (f k : Nat) (s' : PState) (v : Val) (ok : Bool)
+    (h : parseRuleLeader (env inp) (parseExpr (env inp) f) k ruleE (startState (env inp)) = .done v ok s') :
+    Iter (env inp) ruleE [[e8, e9], [e12, e13]] [e14] (startState (env inp)).pt ok v s'.pt :=
+  C08_direct_left_recursion_is_iteration_partial (direct inp) f k _ s' v ok (start_inv _)
+    (by simp [getMemoized, startState, initState]) h
+
+/-- the shape `[[[a, p, c], m, d], nil]` of a value (the outer pair is the start rule's `E !.`) -/
+def nested : Final → Option (List Nat × List Nat × List Nat × List Nat × List Nat)
+  | .ret (.list [.list [.list [.bytes a, .bytes p, .bytes c], .bytes m, .bytes d], .nil]) _ _ => some (a, p, c, m, d)
+  | _ => none
+
+/-- and the value really is left-nested (kernel-evaluated): `1+2-1` gives `[[[1, +, 2], -, 1], nil]`, i.e. `(1+2)-1` -/
+theorem left_nested : nested (parse (env "1+2-1") 40) = some ([49], [43], [50], [45], [49]) := by decide
+
+end ExampleIter
 
 /-! ### kernel-evaluated witnesses of two listed findings (the model reproduces the code; the same inputs are
     replayed against the real generated parser by the check) -/
